@@ -90,12 +90,12 @@ theorem qmc_make_reject_leaves_state (k : Kind) (s : State) (m : List Rat) (vs :
 its reported offset `d` is subtracted (`d = 0` and the offset is untouched for the two entry points
 without offset), the two flags are OR-ed with the interaction's classification, its bond index is
 appended to `non_const_diags` iff its diagonal is not constant, the heat-bath table is dropped, the
-number of variables is unchanged. -/
+number of variables and the two options (`do_heatbath`, `do_loop_updates`) are unchanged. -/
 theorem qmc_make_accept_effects (k : Kind) (s : State) (m : List Rat) (vs : List Nat)
     (I : Interaction) (d : Rat) (h : standalone k m vs = .ok (I, d)) (hr : ∀ v ∈ vs, v < s.nvars) :
     ∃ sym, I.symUnderIsing = .ok sym ∧
       make k s m vs = (.ok (),
-        { nvars := s.nvars
+        { s with
           bonds := s.bonds ++ [I]
           offset := s.offset - d
           hasClusterEdges := s.hasClusterEdges || isValidClusterEdge I.isConstant I.vars.length
@@ -262,6 +262,87 @@ theorem flags_order_independent (n : Nat) (cs cs' : List Call) (h : cs.Perm cs')
   · exact (hp.map (·.1)).append_left _
   · simp only [State.init, List.nil_append, List.length_nil]
     exact ncdOf_length_perm _ _ (hp.map (·.1))
+
+/-! ### constructor calls interleaved with option setters and time steps -/
+
+/-- the cached heat-bath table, when present, is the table of the CURRENT interactions -/
+def TableCurrent (s : State) : Prop :=
+  ∀ t, s.bondWeights = some t → t = s.bonds.map maxDiagWeight
+
+theorem runEvent_call (s : State) (c : Call) : runEvent s (.call c) = runCalls s [c] := rfl
+
+/-- Along any interleaving of constructor calls, `set_do_heatbath`, `set_do_loop_updates` and time
+steps the cached table is absent or current: an accepted interaction drops it, a rejected one leaves
+it (and the bonds) alone, a step builds it from the bonds it sees. -/
+theorem table_is_current (s : State) (h : TableCurrent s) (es : List Event) :
+    TableCurrent (runEvents s es) := by
+  unfold runEvents
+  induction es generalizing s with
+  | nil => exact h
+  | cons e t ih =>
+    rw [List.foldl_cons]
+    apply ih
+    cases e with
+    | call c =>
+      simp only [runEvent]
+      rw [make_snd]
+      cases contribution s.nvars c with
+      | none => exact h
+      | some p => intro t ht; simp [apply1, accepted] at ht
+    | setHeatbath b => exact h
+    | setLoops b => exact h
+    | step =>
+      simp only [runEvent, afterDiagonalUpdate]
+      split
+      · intro t ht; simp at ht; exact ht.symm
+      · exact h
+
+/-- With the heat-bath option on, the `unwrap` of the table in `diagonal_update` finds the table of
+the current interactions — whatever was added, and in whatever order the option was switched, before. -/
+theorem heatbath_step_finds_table (s : State) (h : TableCurrent s) (hd : s.doHeatbath = true) :
+    (afterDiagonalUpdate s).bondWeights = some (s.bonds.map maxDiagWeight) := by
+  unfold afterDiagonalUpdate
+  cases hb : s.bondWeights with
+  | none => simp [hd]
+  | some t => simp [hd, hb, h t hb]
+
+/-- the bond invariant also holds along interleavings with setters and steps (they touch neither the
+bonds nor the number of variables) -/
+theorem events_keep_bonds_in_range (s : State) (hs : BondsOK s) (es : List Event) :
+    BondsOK (runEvents s es) ∧ (runEvents s es).nvars = s.nvars := by
+  unfold runEvents
+  induction es generalizing s with
+  | nil => exact ⟨hs, rfl⟩
+  | cons e t ih =>
+    rw [List.foldl_cons]
+    have step : BondsOK (runEvent s e) ∧ (runEvent s e).nvars = s.nvars := by
+      cases e with
+      | call c => rw [runEvent_call]; exact accepted_bonds_in_range s hs [c]
+      | setHeatbath b => exact ⟨hs, rfl⟩
+      | setLoops b => exact ⟨hs, rfl⟩
+      | step =>
+        simp only [runEvent, afterDiagonalUpdate]
+        split
+        · exact ⟨hs, rfl⟩
+        · exact ⟨hs, rfl⟩
+    obtain ⟨h1, h2⟩ := ih (runEvent s e) step.1
+    exact ⟨h1, h2.trans step.2⟩
+
+/-- the order "options first, model afterwards" (round-9 seed C16-17): heat-bath switched on on an
+empty sampler, then an interaction, then a step — the step finds a one-entry table -/
+example : ((runEvents (State.init 2)
+      [.setHeatbath true, .call ⟨.diag, [1, 2], [1]⟩, .step]).bondWeights.map List.length) = some 1 := by
+  have hacc : (make .diag (setDoHeatbath (State.init 2) true) [1, 2] [1]).1 = .ok () := by
+    have := (qmc_make_accepts_iff_explicit (setDoHeatbath (State.init 2) true) [1, 2] [1]).2.1
+    simp only [make]; rw [this]
+    refine ⟨?_, by simp, by simp, by simp [State.init, setDoHeatbath]⟩
+    intro x hx; simp at hx; rcases hx with rfl | rfl <;> norm_num
+  obtain ⟨⟨⟨I, d⟩, hst⟩, hr⟩ := (qmc_make_accepts_iff _ _ _ _).mp hacc
+  obtain ⟨sym, _, hm⟩ := make_of_ok_in _ hst ((outOfRange_false_iff _ _).mpr hr)
+  have e : runEvents (State.init 2) [.setHeatbath true, .call ⟨.diag, [1, 2], [1]⟩, .step]
+      = afterDiagonalUpdate (make .diag (setDoHeatbath (State.init 2) true) [1, 2] [1]).2 := rfl
+  rw [e, hm]
+  simp [afterDiagonalUpdate, accepted, setDoHeatbath, State.init]
 
 /-! ### regression witnesses and non-vacuity -/
 
